@@ -21,7 +21,7 @@ func init() {
 	core.Register(&core.Prop{
 		ID: "C10",
 		Rule: "history phase: case = one pair of spatial references (emphasis on pairs where both sides carry 3-/7-parameter datums other than WGS84 — the intermediate WGS84 hop — and on sources/destinations with non-default +axis strings, plus ordinary pairs; in 12% of the pairs one side parses but cannot be set up - an unimplemented projection or utm without zone - so that every call fails) with transformers T: S->D, T': D->S and T'': S->registered WGS84 built once, then driven through a random history of 2-40 interleaved calls on tagged inputs (repeats included); oracle for every call = a transformer built from freshly parsed copies of the same definitions and used once (agreement within 4 ulp, same error/no-error outcome, no panic); " +
-			"structure phase: case = one geometry of the 8 types (empty members included) transformed with an instrumented affine transformer (type/nesting preserved, *Bounds -> 4-vertex polygon in corner order, vertex i == t(vertex i) bitwise, input untouched), with nil (identity), with a transformer failing on its k-th call for every k <= Len (exactly that error, no panic) and with a real datum-shifting transformer compared vertex by vertex with fresh single-use transformers; " +
+			"structure phase (1% of the cases: one path of 63..65537 vertices in each container type with a value-keyed failing vertex next to the ends / chunk boundaries): case = one geometry of the 8 types (empty members included) transformed with an instrumented affine transformer (type/nesting preserved, *Bounds -> 4-vertex polygon in corner order, vertex i == t(vertex i) bitwise, input untouched), with nil (identity), with a transformer failing on its k-th call for every k <= Len (exactly that error, no panic) and with a real datum-shifting transformer compared vertex by vertex with fresh single-use transformers; " +
 			"an evaluation is one transformer call or one Transform call judged; non-trivial = history with >= 2 calls through a hop pair, or geometry with >= 2 vertices; distinct by content hash",
 		Assumptions: []string{"concurrent use of one transformer is not claimed (the property quantifies over histories, not schedules)", "4-ulp slack so that harmless refactors (cached constants) do not alarm"},
 		Phases: []core.Phase{
@@ -41,7 +41,7 @@ func init() {
 		Run: run,
 		Floors: func(t string) map[string]int64 {
 			return map[string]int64{"pair.hop": 500, "pair.axis": 300, "pair.ordinary": 300, "history.calls": 20000, "history.repeat_call": 2000, "history.to_registered_wgs84": 1000, "history.failing_input": 1000, "pair.one_side_cannot_be_set_up": 100,
-				"structure.failing_k": 10000, "structure.shared_backing_array": 1000, "structure.nil_transformer": 1000, "structure.real_transformer": 1000, "structure.*Bounds": 100, "structure.GeometryCollection": 100, "structure.MultiPolygon": 100, "structure.MultiLineString": 100}
+				"structure.failing_k": 10000, "structure.shared_backing_array": 1000, "longpath.vertices>=2048": 30, "structure.nil_transformer": 1000, "structure.real_transformer": 1000, "structure.*Bounds": 100, "structure.GeometryCollection": 100, "structure.MultiPolygon": 100, "structure.MultiLineString": 100}
 		},
 	})
 }
@@ -329,8 +329,90 @@ func tname(g geom.Geom) string {
 
 func affine(x, y float64) (float64, float64) { return 2*x + 3*y + 1, -x + 0.5*y - 7 }
 
+// runLongPath: one long path (63 .. 65537 vertices) in each container type; a pure,
+// goroutine-safe transformer that fails exactly on one marked vertex (chosen next to the
+// ends and to likely chunk boundaries) must make Transform return that error; without a
+// failing vertex the result is the vertex-wise image.
+func runLongPath(c *core.Ctx) {
+	r := c.R
+	n := gen.BigLen(r)
+	pts := make([]geom.Point, n)
+	for i := range pts {
+		pts[i] = geom.Point{X: r.Range(-1000, 1000), Y: r.Range(-1000, 1000)}
+	}
+	small := func() []geom.Point { return []geom.Point{{X: 1, Y: 1}, {X: 2, Y: 1}, {X: 1, Y: 2}} }
+	var g geom.Geom
+	wrap := r.Intn(6)
+	switch wrap {
+	case 0:
+		g = geom.LineString(pts)
+	case 1:
+		g = geom.Polygon{small(), pts}
+	case 2:
+		g = geom.MultiLineString{small(), pts, small()}
+	case 3:
+		g = geom.MultiPolygon{{small()}, {pts, small()}}
+	case 4:
+		g = geom.GeometryCollection{geom.Point{X: 0, Y: 0}, geom.GeometryCollection{geom.LineString(pts)}}
+	default:
+		g = geom.MultiPoint(pts)
+	}
+	name := tname(g)
+	c.Count("longpath." + name)
+	if n >= 2048 {
+		c.Count("longpath.vertices>=2048")
+	}
+	mark := geom.Point{X: 123456.5, Y: -98765.25}
+	for trial := 0; trial < 6; trial++ {
+		at := gen.EdgePos(r, n)
+		saved := pts[at]
+		pts[at] = mark
+		ft := proj.Transformer(func(x, y float64) (float64, float64, error) {
+			if x == mark.X && y == mark.Y {
+				return math.NaN(), math.NaN(), errSentinel
+			}
+			a, b := affine(x, y)
+			return a, b, nil
+		})
+		d := map[string]interface{}{"container": fmt.Sprintf("%T (layout %d)", g, wrap), "long_path_vertices": n, "failing_vertex_index_in_long_path": at,
+			"note": "vertices uniform in [-1000,1000]^2 except the failing one; the replay regenerates the case from its seed"}
+		c.Eval()
+		var err error
+		rec := core.Try(func() { _, err = g.Transform(ft) })
+		pts[at] = saved
+		if rec != nil {
+			c.Violate("fail-panic:long-path:"+name, fmt.Sprintf("%s.Transform panicked when the transformer failed on vertex %d of a %d-vertex path: %v", name, at, n, core.Trunc(fmt.Sprint(rec), 120)), d)
+			return
+		}
+		if err != errSentinel {
+			c.Violate("fail-error-lost:long-path:"+name, fmt.Sprintf("%s.Transform returned error %v when the transformer failed on vertex %d of a %d-vertex path", name, err, at, n), d)
+			return
+		}
+	}
+	// no failing vertex: vertex-wise image
+	c.Eval()
+	pure := proj.Transformer(func(x, y float64) (float64, float64, error) { a, b := affine(x, y); return a, b, nil })
+	var res geom.Geom
+	var err error
+	d := map[string]interface{}{"container": fmt.Sprintf("%T (layout %d)", g, wrap), "long_path_vertices": n}
+	if c.Guard("Transform:long-path:"+name, d, func() { res, err = g.Transform(pure) }) {
+		return
+	}
+	if err != nil {
+		c.Violate("transform-error:long-path:"+name, fmt.Sprintf("%s.Transform returned %v for a transformer that never fails", name, err), d)
+		return
+	}
+	if ok, why := gen.SameStructure(image(g), res); !ok {
+		c.Violate("structure:long-path:"+name, fmt.Sprintf("%s.Transform result differs from the vertex-wise image: %s", name, why), d)
+	}
+}
+
 func runStructure(c *core.Ctx) {
 	r := c.R
+	if r.Chance(0.01) {
+		runLongPath(c)
+		return
+	}
 	o := &gen.GeomOpts{
 		Kinds:      []int{gen.KPoint, gen.KMultiPoint, gen.KLineString, gen.KMultiLineString, gen.KPolygon, gen.KMultiPolygon, gen.KCollection, gen.KBounds},
 		Coord:      func(r *gen.R) float64 { return r.Range(-1000, 1000) },
